@@ -2008,7 +2008,19 @@ class Module(ABC):
 
             # Recordings, clamps and trainables of what is about to be cleared would refer
             # to states or parameters that no longer exist. Refuse before modifying.
+            flags = self.base.nodes[name].fillna(False).astype(bool)
+            channel_remains = bool(flags.drop(index=self._nodes_in_view).any())
             for col, rows in cleared_rows.items():
+                shared = any(
+                    col in c.channel_params
+                    or col in c.channel_states
+                    or col == c.current_name
+                    for c in other_channels
+                )
+                if not channel_remains and not shared:
+                    # The state or parameter disappears from the module: any reference
+                    # to it (also on compartments that never had the channel) dangles.
+                    rows = self.base.nodes.index.to_numpy()
                 recs = self.base.recordings
                 referenced = not recs.empty and bool(
                     ((recs["state"] == col) & recs["rec_index"].isin(rows)).any()
